@@ -75,7 +75,8 @@ struct Operator;
 //@type std::pair<(Pomerol::)?BlockNumber, (Pomerol::)?(Symmetrizer::)?QuantumNumbers> => PairBQ val
 typedef struct QN { unsigned long hash; } QN;
 typedef struct OpPtr { struct Operator *p; } OpPtr;
-typedef struct VecOpPtr { unsigned long size; OpPtr scratch; } VecOpPtr;
+/* ghost-element model: the operation at ONE arbitrary position gidx is the object gop; every other position yields `scratch` */
+typedef struct VecOpPtr { unsigned long size; OpPtr scratch; unsigned long gidx; OpPtr gop; } VecOpPtr;
 struct IndexClassification { unsigned int IndexSize; };
 struct Symmetrizer { VecOpPtr Operations; };
 typedef struct MapQBEntry { BlockNumber second; } MapQBEntry;
@@ -349,11 +350,24 @@ void h_mapsTo(void)
 /* quantum numbers: opaque (compared through their hash by Symmetrizer::QuantumNumbers::operator<, the map's comparator) */
 static inline unsigned long VecOpPtr_size(VecOpPtr *v) { return v->size; }
 static inline OpPtr *VecOpPtr_at(VecOpPtr *v, unsigned long i)
-{ __CPROVER_assert(i < v->size, "vector<shared_ptr<Operator>>::operator[]: index < size()"); return &v->scratch; }
+{ __CPROVER_assert(i < v->size, "vector<shared_ptr<Operator>>::operator[]: index < size()"); return i == v->gidx ? &v->gop : &v->scratch; }
 static inline struct Operator *OpPtr_arrow(OpPtr *s) { return s->p; }
-/* virtual Operator::getMatrixElement(bra, ket): ORACLE, any value */
-static inline double Operator_getMatrixElement(struct Operator *o, Bitset bra, Bitset ket) { (void)o; (void)bra; (void)ket; return nondet_double(); }
-static inline _Bool QN_set(QN *q, int pos, double val) { (void)pos; (void)val; q->hash = nondet_ulong(); return 1; }
+/* the ghost PAIR (operation m, state v) -- both arbitrary -- and the ORACLE value <v|Op_m|v> (any value); the state of the latest evaluation */
+struct Operator *g_mop; unsigned long g_mopn; unsigned long g_mstate; double g_melem; unsigned long g_cur_state;
+/* virtual Operator::getMatrixElement(bra, ket): ORACLE, any value; for the ghost pair THE value g_melem */
+static inline double Operator_getMatrixElement(struct Operator *o, Bitset bra, Bitset ket)
+{
+  (void)bra; g_cur_state = ket.w;
+  if (o == g_mop && ket.w == g_mstate) { REACH("melem@ghost-pair"); return g_melem; }
+  return nondet_double();
+}
+/* "quantum numbers per Fock state": number n of state u is the matrix element <u|Op_n|u> itself (checked at the ghost pair: an arbitrary pair) */
+static inline _Bool QN_set(QN *q, int pos, double val)
+{
+  if (pos >= 0 && (unsigned long)pos == g_mopn && g_cur_state == g_mstate)
+    __CPROVER_assert(D_SAME(val, g_melem), "C07: the n-th quantum number stored for a state u is the matrix element <u|Op_n|u> of the n-th symmetry operation");
+  q->hash = nondet_ulong(); return 1;
+}
 static inline unsigned int IndexClassification_getIndexSize(struct IndexClassification *ic) { return ic->IndexSize; }
 static inline VecOpPtr *Symmetrizer_getOperations(struct Symmetrizer *sy) { return &sy->Operations; }
 static inline QN Symmetrizer_getQuantumNumbers(struct Symmetrizer *sy) { QN q; (void)sy; q.hash = nondet_ulong(); return q; }
@@ -424,26 +438,28 @@ __CPROVER_requires(self->Status < Computed ==> (SBI->size == 0 && SCN->size == 0
 /* TYPE INVARIANT / OBLIGATION on the caller: at most 30 single-particle indices (1 << IndexSize is an int) */
 __CPROVER_requires(self->IndexInfo.IndexSize <= 30 && self->Symm.Operations.size <= SYM_MAX)
 __CPROVER_requires(SBI->gidx == g_s && g_hits == 0)
+/* the ghost pair (operation, state) of the matrix-element oracle: the ghost operation is an object of its own */
+__CPROVER_requires(g_mop == self->Symm.Operations.gop.p && g_mopn == self->Symm.Operations.gidx && self->Symm.Operations.gop.p != self->Symm.Operations.scratch.p)
 __CPROVER_assigns(self->Status, self->IndexSize, self->StateSize, self->StateBlockIndex, self->StatesContainer, self->QuantumToBlock, self->BlockToQuantum,
-                  g_hits, g_hit_block, g_last_block, g_qb_slot, g_qb_expect)
+                  g_hits, g_hit_block, g_last_block, g_qb_slot, g_qb_expect, g_cur_state)
 __CPROVER_ensures(!VERIF_thrown && self->Status >= Computed)
 __CPROVER_ensures(__CPROVER_old(self->Status) < Computed ==> (self->IndexSize == self->IndexInfo.IndexSize && self->StateSize == (1UL << self->IndexSize) && SBI->size == self->StateSize))
 /* the ghost state: a valid block index; appended exactly once, to that block */
 __CPROVER_ensures((__CPROVER_old(self->Status) < Computed && g_s < self->StateSize) ==> GHOST_DONE)
 //@loop 1
 __CPROVER_assigns(FockStateIndex, block_index, self->StateBlockIndex, self->StatesContainer, self->QuantumToBlock, self->BlockToQuantum,
-                  g_hits, g_hit_block, g_last_block, g_qb_slot, g_qb_expect)
+                  g_hits, g_hit_block, g_last_block, g_qb_slot, g_qb_expect, g_cur_state)
 __CPROVER_loop_invariant(FockStateIndex <= self->StateSize && self->StateSize == (1UL << self->IndexSize) && self->IndexSize <= 30 && NOperations >= 0)
 __CPROVER_loop_invariant(SBI->size == FockStateIndex && SBI->gidx == g_s && self->BlockToQuantum.size <= FockStateIndex)
 __CPROVER_loop_invariant(block_index.number >= 0 && (unsigned long)block_index.number == SCN->size && SCN->size == self->QuantumToBlock.size && SCN->size <= FockStateIndex)
 __CPROVER_loop_invariant(g_s < FockStateIndex ? GHOST_DONE : g_hits == 0)
 __CPROVER_decreases(self->StateSize - FockStateIndex)
 //@loop 2
-__CPROVER_assigns(n, QNumbers)
+__CPROVER_assigns(n, QNumbers, g_cur_state)
 __CPROVER_loop_invariant(0 <= n && n <= NOperations)
 __CPROVER_decreases(NOperations - n)
 //@end
-//@harness h_SC_compute enforce=SC_compute props=C07,C17 min_obl=763 reach=4 timeout=180
+//@harness h_SC_compute enforce=SC_compute props=C07,C17 min_obl=763 reach=5 timeout=180
 void h_SC_compute(void)
 {
   struct StatesClassification *p;
